@@ -67,6 +67,50 @@ pub fn validate(era: EraK, tx: &[u8], utxos: &[Utxo], env: &Environment) -> Outc
     }
 }
 
+/// Phase-1 on the same transaction with its witness set held as an in-memory value, i.e. a wrapper without retained
+/// bytes, the way a transaction assembled in code reaches the validator. The body and the auxiliary data keep their
+/// bytes (the metadata-hash rule hashes the retained bytes), so the id and the signatures are unchanged. None when a part would serialise differently from its wire bytes (then it
+/// is not the same transaction) or nothing decodes.
+pub fn validate_in_memory(era: EraK, tx: &[u8], utxos: &[Utxo], env: &Environment) -> Option<Outcome> {
+    use pallas_codec::utils::KeepRaw;
+    let um = build_utxos(utxos).ok()?;
+    let mut cs = CertState::default();
+    macro_rules! rebuild {
+        ($t:ident) => {{
+            let w = $t.transaction_witness_set.clone().unwrap();
+            if minicbor::to_vec(&w).ok()?.as_slice() != $t.transaction_witness_set.raw_cbor() {
+                return None;
+            }
+            $t.transaction_witness_set = KeepRaw::from(w);
+        }};
+    }
+    macro_rules! go {
+        ($metx:expr) => {
+            Some(match validate_tx(&$metx, 0, env, &um, &mut cs) {
+                Ok(()) => Outcome::Accepted,
+                Err(e) => Outcome::Rejected(format!("{e:?}")),
+            })
+        };
+    }
+    match era {
+        EraK::Shelley | EraK::Allegra | EraK::Mary | EraK::Alonzo => {
+            let mut t = minicbor::decode::<pallas_primitives::alonzo::Tx>(tx).ok()?;
+            rebuild!(t);
+            go!(MultiEraTx::from_alonzo_compatible(&t, era_of(era)))
+        }
+        EraK::Babbage => {
+            let mut t = minicbor::decode::<pallas_primitives::babbage::Tx>(tx).ok()?;
+            rebuild!(t);
+            go!(MultiEraTx::from_babbage(&t))
+        }
+        EraK::Conway => {
+            let mut t = minicbor::decode::<pallas_primitives::conway::Tx>(tx).ok()?;
+            rebuild!(t);
+            go!(MultiEraTx::from_conway(&t))
+        }
+    }
+}
+
 /// `MultiEraTx::size()` of the transaction (None if it does not decode).
 pub fn traverse_size(era: EraK, tx: &[u8]) -> Option<usize> {
     match era {
